@@ -215,7 +215,7 @@ func (w *world) setupAgent() {
 		k := agent.AddedKey{PrivateKey: keys.AgentPriv(keys.KindEd, "pre:"+p.Label), Comment: p.Comment}
 		if p.Kind == "ysshcert" {
 			k.Certificate = keys.Cert(keys.CertSpec{KeyKind: keys.KindEd, KeyLabel: "pre:" + p.Label, CALabel: "foreign",
-				KeyID: `{"prins":["someone"],"transID":"00aabbccdd","reqUser":"someone","reqIP":"10.1.2.3","reqHost":"elsewhere","isFirefighter":false,"isHWKey":false,"isHeadless":false,"isNonce":false,"usage":0,"touchPolicy":1,"ver":1}`,
+				KeyID:       `{"prins":["someone"],"transID":"00aabbccdd","reqUser":"someone","reqIP":"10.1.2.3","reqHost":"elsewhere","isFirefighter":false,"isHWKey":false,"isHeadless":false,"isNonce":false,"usage":0,"touchPolicy":1,"ver":1}`,
 				ValidBefore: ssh.CertTimeInfinity, Principals: []string{"someone"}})
 		}
 		if p.Kind == "cert" {
